@@ -233,6 +233,28 @@ func (p *Path) OK() bool {
 	return p.factIs(len(p.Events), "("+last.String()+" == nil)", true)
 }
 
+// MayOK: the path may return a nil error: its last result is nil, established
+// nil, or the unconstrained result of a call returned directly (tail call).
+func (p *Path) MayOK() bool {
+	if p.Panic {
+		return false
+	}
+	if p.OK() {
+		return true
+	}
+	if len(p.Ret) == 0 {
+		return true
+	}
+	last := p.Ret[len(p.Ret)-1]
+	if nonNil(last) {
+		return false
+	}
+	if last.Op != "call" && last.Op != "extract" {
+		return false
+	}
+	return !p.factIs(len(p.Events), "("+last.String()+" == nil)", false)
+}
+
 func (p *Path) Find(pred func(*Event) bool) []int {
 	var out []int
 	for i := range p.Events {
